@@ -19,7 +19,7 @@ from fractions import Fraction as F
 import numpy as np
 
 from harness import gallina as g
-from harness.util import import_df, js, attempt
+from harness.util import import_df, js, attempt, relayout, LAYOUTS
 
 df = import_df()
 
@@ -224,13 +224,50 @@ def gen_names(rng):
                 op=rng.choice(["fftn", "rfftn", "ifftn", "irfftn"]))
 
 
-def gen_values_spec(rng, real):
-    return dict(cplx=(not real) and rng.random() < 0.6, seed=rng.randrange(10 ** 9),
-                scale=rng.choice([1, 1, 1, 1e-3, 1e6, 2.0 ** -20]),
-                cls=rng.choice(["rand", "rand", "rand", "delta", "const", "ints", "zero" if rng.random() < 0.2 else "rand"]))
+TINY = [1e-10, 2.0 ** -40, 1e-12, 2.0 ** -60]
+EXTREME = [2.0 ** -200, 2.0 ** 300, 2.0 ** 100, 2.0 ** -120]
+
+
+def gen_values_spec(rng, real, extreme=False, plain=False):
+    """value array spec: class of pattern, magnitudes of real and imaginary part (chosen independently:
+    order one, a tiny imaginary part next to an order-one real part, the whole field tiny or huge), dtype,
+    memory layout of the array handed to Field, validity mask (False cells hold non-zero values)"""
+    cplx = (not real) and rng.random() < 0.6
+    mag = "one" if plain else rng.choice(["one", "one", "one", "tiny-imag", "tiny-all", "tiny-real", "far"])
+    tiny = TINY + (EXTREME[:1] if extreme else [])
+    far = (EXTREME if extreme else [2.0 ** 100, 2.0 ** -60])
+    if mag == "one":
+        sre = sim = rng.choice([1, 1, 1, 1e-3, 1e6, 2.0 ** -20])
+    elif mag == "tiny-imag":
+        sre, sim = 1.0, rng.choice(tiny)
+    elif mag == "tiny-real":
+        sre, sim = rng.choice(tiny), 1.0
+    elif mag == "tiny-all":
+        sre = sim = rng.choice(tiny)
+    else:
+        sre = sim = rng.choice(far)
+    cls = rng.choice(["rand", "rand", "rand", "delta", "const", "ints", "zero" if rng.random() < 0.2 else "rand"])
+    dtype = None
+    if mag == "one" and rng.random() < 0.25:
+        dtype = rng.choice(["complex64" if cplx else "float32", "int" if not cplx else "complex64"])
+        if dtype == "int":
+            cls, sre, sim = "ints", 1.0, 1.0
+        elif sre not in (1, 1.0):
+            sre = sim = 1.0
+    valid = None
+    u = rng.random()
+    if u < 0.3:
+        valid = dict(kind="bool", seed=rng.randrange(10 ** 9), p=rng.choice([0.2, 0.5, 0.9]))
+    elif u < 0.4:
+        valid = dict(kind="callable", seed=rng.randrange(10 ** 9))
+    elif u < 0.45:
+        valid = dict(kind="norm")
+    return dict(cplx=cplx, seed=rng.randrange(10 ** 9), scale=sre, scale_im=sim, mag=mag, cls=cls,
+                dtype=dtype, layout=rng.choice(LAYOUTS), valid=valid)
 
 
 def make_values(spec, shape):
+    """the values as a plain C-ordered array (reference copy); see field_of for what is handed to Field"""
     r = random.Random(spec["seed"])
     nvals = int(np.prod(shape))
 
@@ -253,9 +290,46 @@ def make_values(spec, shape):
         re = np.array([one() for _ in range(nvals)])
         im = np.array([one() for _ in range(nvals)])
     s = spec["scale"]
+    si = spec.get("scale_im", s)
     if spec["cplx"]:
-        return ((re + 1j * im) * s).reshape(shape)
-    return (re * s).reshape(shape)
+        out = (re * s + 1j * (im * si)).reshape(shape)
+    else:
+        out = (re * s).reshape(shape)
+    dt = spec.get("dtype")
+    if dt == "int":
+        out = out.astype(complex).real.astype(np.int64) if not spec["cplx"] else out
+    elif dt in ("float32", "complex64"):
+        out = out.astype(np.complex64 if np.iscomplexobj(out) else np.float32)
+    return np.ascontiguousarray(out)
+
+
+def single(x):
+    return np.asarray(x).dtype in (np.float32, np.complex64)
+
+
+def make_valid(spec, mesh):
+    """validity argument for Field: None (default True), a Boolean array with False cells (their values are
+    not zero), a callable of the cell centre, or 'norm'"""
+    v = (spec or {}).get("valid")
+    if v is None:
+        return True
+    if v["kind"] == "norm":
+        return "norm"
+    r = random.Random(v["seed"])
+    n = tuple(int(k) for k in mesh.n)
+    if v["kind"] == "bool":
+        a = np.array([r.random() < v["p"] for _ in range(int(np.prod(n)))], dtype=bool).reshape(n)
+        return a
+    axis = r.randrange(len(n))
+    mid = float(mesh.region.center[axis])
+    return lambda point: bool(np.atleast_1d(point)[axis] < mid)
+
+
+def field_of(mesh, nv, x, spec, **kw):
+    """Field over mesh holding x, handed over in the memory layout / dtype / with the validity of the spec"""
+    f = df.Field(mesh, nvdim=nv, value=relayout(x.copy(), spec.get("layout")), dtype=x.dtype,
+                 valid=make_valid(spec, mesh), **kw)
+    return f
 
 
 def generate(rng, tier):
@@ -292,18 +366,32 @@ def generate(rng, tier):
         n0 = gen_n(rng, nd, tier, cap // (1 if nv < 3 else 2))
         m = gen_mesh(rng, tier, nd=nd)
         c = dict(kind="inv", op=op, n0=n0, nv=nv, mesh=m, values=gen_values_spec(rng, real=(op == "irfftn")))
+        c["values"]["dtype"] = None
+        if c["values"]["cls"] == "ints" and c["values"]["scale"] == 1.0:
+            pass
         if op == "irfftn":
             c["with_shape"] = rng.choice(["list", "list", "none", "int" if nd == 1 else "list"])
             if c["with_shape"] == "none" and n0[-1] % 2 == 1 and n0[-1] != 1:
                 c["with_shape"] = "list"
         cases.append(c)
     # --- algebra (oracle only)
-    for _ in range(70 if q else 600):
+    for _ in range(90 if q else 700):
         nv = rng.choice([1, 2, 3, 3, 4])
         m = gen_mesh(rng, tier, cap=(64 if q else 256) // (1 if nv < 3 else 2))
-        cases.append(dict(kind="algebra", mesh=m, nv=nv, values=gen_values_spec(rng, real=rng.random() < 0.6),
-                          values2=gen_values_spec(rng, real=rng.random() < 0.6),
+        cases.append(dict(kind="algebra", mesh=m, nv=nv,
+                          values=gen_values_spec(rng, real=rng.random() < 0.5, extreme=True),
+                          values2=gen_values_spec(rng, real=rng.random() < 0.6, plain=True),
                           coef=[rng.randint(-8, 8) / 4.0, rng.randint(-8, 8) / 4.0]))
+    # --- used, then changed in place, then transformed again
+    for _ in range(60 if q else 500):
+        nv = rng.choice([1, 1, 2, 3])
+        nd = rng.choice([1, 2, 2, 3, 3])
+        if nv == 3 and rng.random() < 0.5:
+            nd = 3
+        m = gen_mesh(rng, tier, nd=nd, cap=36)
+        v = gen_values_spec(rng, real=rng.random() < 0.7, plain=True)
+        v["dtype"] = None
+        cases.append(dict(kind="state", mesh=m, nv=nv, values=v, steps=gen_steps(rng, nd, nv), rfft=rng.random() < 0.5))
     rng.shuffle(cases)
     return cases
 
@@ -604,7 +692,7 @@ def run_names(c, rec):
     return rec
 
 
-def oracle_forward(rec, mesh, ft, x, real):
+def oracle_forward(rec, mesh, ft, x, real, tolf=TOL):
     """the property text: every k-cell holds sum_r value(r) exp(-2 pi i k.r), r counted from the
     first cell (r = index * cell), k the k-cell's centre as the implementation's k-mesh gives it"""
     n = [int(v) for v in mesh.n]
@@ -621,7 +709,7 @@ def oracle_forward(rec, mesh, ft, x, real):
     single = np.array([k == 1 for k in n])
     phase = np.exp(-2j * np.pi * (kpts @ r.T))
     want = (phase @ xf).reshape(ft.array.shape)
-    tol = TOL * max(l1(x), 1e-300)
+    tol = tolf * max(l1(x), 1e-300)
     if not close_arr(ft.array, want, tol * max(1, len(idx)) ** 0.5):
         rec["oracle"].append("spectrum-is-not-the-dft-at-the-kcell-centres")
     # zero-frequency cell = plain sum
@@ -639,12 +727,15 @@ def run_fwd(c, rec):
     n = m["n"]
     x = make_values(c["values"], tuple(n) + (nv,))
     real = op == "rfftn"
-    f = df.Field(mesh, nvdim=nv, value=x, dtype=x.dtype)
+    f = field_of(mesh, nv, x, c["values"])
+    x = f.array.copy()                      # the stored values are what is transformed, valid or not
     st, ft = transform_twice(rec, f, op)
     if not np.array_equal(f.array, x):
         rec["oracle"].append("source-field-modified-by-" + op)
     nshape = "".join("1" if v == 1 else ("e" if v % 2 == 0 else "o") for v in n)
-    key = f'fwd/{op}/{nshape}/{nv}/{c["values"]["cplx"]}/{c["values"]["cls"]}/{st}'
+    vk = (c["values"].get("valid") or {}).get("kind")
+    key = (f'fwd/{op}/{nshape}/{nv}/{c["values"]["cplx"]}/{c["values"]["cls"]}/{c["values"].get("mag")}/'
+           f'{c["values"].get("dtype")}/{c["values"].get("layout")}/{vk}/{st}')
     if st != "ok":
         # the real transform of complex data is not defined by the property: rejection admissible
         if not (real and np.iscomplexobj(x)):
@@ -655,9 +746,13 @@ def run_fwd(c, rec):
         rec.update(obs=dict(note="real transform accepted complex data"), key=key, size=sum(n) + nv)
         return rec
     check_kmesh(rec, m, real, ft.mesh)
-    oracle_forward(rec, mesh, ft, x, real)
+    oracle_forward(rec, mesh, ft, x, real, 2e-5 if single(x) else TOL)
+    obs = dict(shape=list(ft.array.shape), kmesh=mesh_obs(ft.mesh), invalid_cells=int((~f.valid).sum()))
+    if single(x):
+        rec.update(obs=obs, key=key, size=sum(n) + nv)      # single precision: oracle only
+        return rec
     bins = naive_dft(x, n)
-    rec.update(obs=dict(shape=list(ft.array.shape), kmesh=mesh_obs(ft.mesh)),
+    rec.update(obs=obs,
                coq=f"CArr {g.b(real)} {g.zl(n)} {arr_coq(bins, len(n))} {arr_coq(ft.array, len(n))}",
                key=key, size=sum(n) + nv)
     return rec
@@ -681,7 +776,7 @@ def run_inv(c, rec):
         spec = py_arrange(True, n0, naive_dft(x0, n0))      # a consistent half spectrum
     else:
         spec = x0.astype(complex)                            # any complex array is a spectrum
-    f = df.Field(mesh, nvdim=nv, value=spec, dtype=complex)
+    f = field_of(mesh, nv, np.ascontiguousarray(spec), c["values"])
     kw = {}
     if real:
         ws = c.get("with_shape", "list")
@@ -693,7 +788,7 @@ def run_inv(c, rec):
     if not np.array_equal(f.array, spec):
         rec["oracle"].append("source-field-modified-by-" + op)
     nshape = "".join("1" if v == 1 else ("e" if v % 2 == 0 else "o") for v in n0)
-    key = f'inv/{op}/{nshape}/{nv}/{c.get("with_shape")}/{c["values"]["cls"]}/{st}'
+    key = f'inv/{op}/{nshape}/{nv}/{c.get("with_shape")}/{c["values"]["cls"]}/{c["values"].get("mag")}/{st}'
     if st != "ok":
         rec["oracle"].append("inverse-transform-rejected")
         rec.update(obs=dict(err=out), key=key, size=sum(n0) + nv)
@@ -724,26 +819,70 @@ def run_inv(c, rec):
     return rec
 
 
+def rt_tol(x, ncells):
+    """round-trip tolerance relative to the field's own magnitude (rounding of two transforms)"""
+    mag = float(np.abs(np.asarray(x, dtype=complex)).max()) if np.asarray(x).size else 0.0
+    if single(x):
+        return 2e-5 * mag
+    return 2e-13 * mag * (math.log2(max(ncells, 1)) + 1)
+
+
+def pow2_exponents(x):
+    """exponents k for which 2^k * x neither overflows nor reaches subnormals anywhere in a transform"""
+    z = np.asarray(x, dtype=complex)
+    parts = np.abs(np.concatenate([z.real.ravel(), z.imag.ravel()]))
+    nz = parts[parts > 0]
+    if nz.size == 0:
+        return []
+    lo, hi = math.log2(nz.min()), math.log2(nz.max())
+    return [k for k in (40, -40, 200, -200, 13) if hi + k < 700 and lo + k > -700]
+
+
+def scaling_clause(rec, f, op, res, kw=None):
+    """linearity relative to the field's own magnitude: a transform of 2^k * field is 2^k * transform
+    (exact in binary floating point for a linear algorithm; 1e-13 of the result's size is allowed)"""
+    if single(f.array) or f.array.dtype.kind in "iu":
+        return
+    for k in pow2_exponents(f.array)[:2]:
+        st, g2 = attempt(lambda: getattr(f * 2.0 ** k, op)(**(kw or {})))
+        if st != "ok":
+            rec["oracle"].append("scaled-field-rejected-by-" + op)
+            continue
+        want = res.array * 2.0 ** k
+        tol = 1e-13 * float(np.abs(np.asarray(want, dtype=complex)).max()) if want.size else 0.0
+        if g2.array.shape != want.shape or not close_arr(g2.array, want, tol):
+            rec["oracle"].append("not-linear-under-rescaling-" + op)
+
+
 def run_algebra(c, rec):
     m, nv = c["mesh"], c["nv"]
     mesh = build_mesh(m)
     n = m["n"]
     nd = len(n)
+    ncells = int(np.prod(n))
     x = make_values(c["values"], tuple(n) + (nv,))
     y = make_values(c["values2"], tuple(n) + (nv,))
     a, b = c["coef"]
+    f = field_of(mesh, nv, x, c["values"])
+    h = field_of(mesh, nv, y, c["values2"])
+    x, y = f.array.copy(), h.array.copy()
     isreal = not np.iscomplexobj(x)
-    f = df.Field(mesh, nvdim=nv, value=x, dtype=x.dtype)
-    h = df.Field(mesh, nvdim=nv, value=y, dtype=y.dtype)
-    tolx = TOL * max(l1(x), 1e-300)
-    toly = TOL * max(l1(y), 1e-300)
+    tf_ = 2e-5 if (single(x) or single(y)) else TOL
+    tolx = tf_ * max(l1(x), 1e-300)
+    toly = tf_ * max(l1(y), 1e-300)
     before_f, before_h = snapshot(f), snapshot(h)
     F1 = f.fftn()
-    # round trip of the full transform
+    oracle_forward(rec, mesh, F1, x, False, tf_)
+    scaling_clause(rec, f, "fftn", F1)
+    # round trip of the full transform, relative to the field's own magnitude
     back = F1.ifftn()
     check_back_mesh(rec, m, back.mesh)
-    if not close_arr(back.array, x, TOL * max(np.abs(x).max(), 1e-300) * 10):
+    if not close_arr(back.array, x, rt_tol(x, ncells)):
         rec["oracle"].append("ifftn-does-not-undo-fftn")
+    xmag = float(np.abs(x).max()) if x.size else 0.0
+    if np.iscomplexobj(x) and float(np.abs(x.imag).max()) > 1e-13 * xmag and not np.iscomplexobj(back.array):
+        rec["oracle"].append("complex-field-comes-back-real")
+    scaling_clause(rec, F1, "ifftn", back)
     # linearity
     lin = (a * f + b * h).fftn()
     if not close_arr(lin.array, a * F1.array + b * h.fftn().array, abs(a) * tolx + abs(b) * toly + 1e-300):
@@ -754,10 +893,12 @@ def run_algebra(c, rec):
             comp = df.Field(mesh, nvdim=1, value=x[..., i:i + 1], dtype=x.dtype).fftn()
             if not close_arr(comp.array[..., 0], F1.array[..., i], tolx):
                 rec["oracle"].append("not-per-component")
-    obs = dict(real=isreal)
+    obs = dict(real=isreal, invalid_cells=int((~f.valid).sum()))
     if isreal:
         R = f.rfftn()
         check_kmesh(rec, m, True, R.mesh)
+        oracle_forward(rec, mesh, R, x, True, tf_)
+        scaling_clause(rec, f, "rfftn", R)
         # the real transform is the half of the full one with the matching frequencies
         last = n[-1]
         for t in range(last // 2 + 1):
@@ -780,15 +921,16 @@ def run_algebra(c, rec):
             rec["oracle"].append("irfftn-with-original-shape-rejected")
         else:
             check_back_mesh(rec, m, rb.mesh)
-            if not close_arr(rb.array, x, TOL * max(np.abs(x).max(), 1e-300) * 10):
+            if not close_arr(rb.array, x, rt_tol(x, ncells)):
                 rec["oracle"].append("irfftn-does-not-undo-rfftn")
+            scaling_clause(rec, R, "irfftn", rb, dict(shape=tuple(n)))
         if last % 2 == 0 or last == 1:
             st, rb = attempt(lambda: R.irfftn())
             if st != "ok":
                 rec["oracle"].append("irfftn-default-rejected")
             else:
                 check_back_mesh(rec, m, rb.mesh)
-                if not close_arr(rb.array, x, TOL * max(np.abs(x).max(), 1e-300) * 10):
+                if not close_arr(rb.array, x, rt_tol(x, ncells)):
                     rec["oracle"].append("irfftn-does-not-undo-rfftn")
         else:
             st, rb = attempt(lambda: R.irfftn())
@@ -798,7 +940,115 @@ def run_algebra(c, rec):
             and np.array_equal(f.array, x) and np.array_equal(h.array, y)):
         rec["oracle"].append("source-field-modified")
     nshape = "".join("1" if v == 1 else ("e" if v % 2 == 0 else "o") for v in n)
-    rec.update(obs=obs, key=f"algebra/{nshape}/{nv}/{isreal}", size=sum(n) + nv)
+    v = c["values"]
+    rec.update(obs=obs, key=(f'algebra/{nshape}/{nv}/{isreal}/{v.get("mag")}/{v.get("dtype")}/{v.get("layout")}/'
+                             f'{(v.get("valid") or {}).get("kind")}'), size=sum(n) + nv)
+    return rec
+
+
+# ------------------------------------------------------------------ used, then changed in place
+UNIT_POOL = ["m", "nm", "um", "s", "", "(m" + KSUF, "px"]
+DIM_POOL = ["a", "b", "c", "d", "x", "y", "z", "t", "k_x", "u0", "u1"]
+
+
+def gen_steps(rng, nd, nv):
+    steps = []
+    renamed = False
+    for _ in range(rng.randint(1, 4)):
+        op = rng.choice(["scale", "scale", "translate", "units", "dims", "rotate90", "rotate90"])
+        # a vector field can be rotated only while its components are mapped to the (current) axis names
+        if op == "rotate90" and (nd < 2 or not (nv == 1 or (nv == nd and not renamed))):
+            op = "scale"
+        renamed = renamed or op == "dims"
+        if op == "scale":
+            fac = [rng.choice([2.0, 0.5, 4.0, 3.0, 0.25, 1.5]) for _ in range(nd)]
+            steps.append(dict(op="scale", factor=fac if rng.random() < 0.7 else fac[0],
+                              ref=rng.random() < 0.3))
+        elif op == "translate":
+            steps.append(dict(op="translate", vector=[rng.randint(-16, 16) / 4.0 for _ in range(nd)]))
+        elif op == "units":
+            steps.append(dict(op="units", units=[rng.choice(UNIT_POOL) for _ in range(nd)]))
+        elif op == "dims":
+            steps.append(dict(op="dims", dims=rng.sample(DIM_POOL, nd)))
+        else:
+            i, j = rng.sample(range(nd), 2)
+            steps.append(dict(op="rotate90", ax=[i, j], k=rng.choice([1, 1, 2, 3, -1]),
+                              on=rng.choice(["field", "field", "mesh-of-scalar"])))
+    return steps
+
+
+def read_back(mesh):
+    """the mesh as it is now, as a mesh spec"""
+    return dict(p1=[S(v) for v in mesh.region.pmin], p2=[S(v) for v in mesh.region.pmax],
+                n=[int(v) for v in mesh.n], dims=[str(d) for d in mesh.region.dims],
+                units=[str(u) for u in mesh.region.units], regime="state")
+
+
+def check_now(rec, f, label, isreal):
+    """every transform uses the mesh and the values as they are NOW"""
+    cur = read_back(f.mesh)
+    x = f.array.copy()
+    for real in ([False, True] if isreal else [False]):
+        op = "rfftn" if real else "fftn"
+        before = len(rec["oracle"])
+        ft = getattr(f, op)()
+        check_kmesh(rec, cur, real, ft.mesh)
+        check_kmesh(rec, cur, real, f.mesh.fftn(rfft=real))
+        oracle_forward(rec, f.mesh, ft, x, real)
+        if float(f.mesh.region.tolerance_factor) != float(ft.mesh.region.tolerance_factor):
+            rec["oracle"].append("tolerance-factor-not-carried")
+        rec["oracle"][before:] = [cl + "@" + label for cl in rec["oracle"][before:]]
+    return cur
+
+
+def run_state(c, rec):
+    m, nv = c["mesh"], c["nv"]
+    mesh = build_mesh(m)
+    n = m["n"]
+    nd = len(n)
+    x = make_values(c["values"], tuple(n) + (nv,))
+    f = field_of(mesh, nv, x, c["values"])
+    isreal = not np.iscomplexobj(x)
+    # use
+    _ = (f.mesh.cell, f.mesh.dV, f.mesh.region.edges, f.mesh.fftn(), f.mesh.fftn(rfft=True))
+    check_now(rec, f, "fresh", isreal)
+    # two transforms of one mesh do not share their k-mesh: changing one result leaves the other alone
+    k1, k2 = f.fftn(), f.fftn()
+    if k1.mesh is k2.mesh or k1.mesh.region is k2.mesh.region or np.shares_memory(k1.array, k2.array):
+        rec["oracle"].append("transforms-share-their-kmesh")
+    before2 = mesh_obs(k2.mesh)
+    k1.mesh.region.units = ["zz"] * nd
+    k1.mesh.translate([1.0] * nd, inplace=True)
+    if mesh_obs(k2.mesh) != before2:
+        rec["oracle"].append("changing-one-result-changes-another")
+    check_now(rec, f, "after-result-changed", isreal)
+    # change in place through public calls, transform again
+    hist = []
+    for i, stp in enumerate(c["steps"]):
+        op = stp["op"]
+        if op == "scale":
+            kw = dict(reference_point=tuple(float(v) for v in f.mesh.region.pmin)) if stp.get("ref") else {}
+            f.mesh.scale(stp["factor"], inplace=True, **kw)
+        elif op == "translate":
+            f.mesh.translate(stp["vector"], inplace=True)
+        elif op == "units":
+            f.mesh.region.units = list(stp["units"])
+        elif op == "dims":
+            f.mesh.region.dims = list(stp["dims"])
+        elif op == "rotate90":
+            d = f.mesh.region.dims
+            f.rotate90(d[stp["ax"][0]], d[stp["ax"][1]], k=stp["k"], inplace=True)
+        hist.append(op)
+        cur = check_now(rec, f, f"after-{i}-{op}", isreal)
+    cur = read_back(f.mesh)
+    rfft = bool(c.get("rfft"))
+    st, k = attempt(lambda: f.mesh.fftn(rfft=rfft))
+    obs = mesh_obs(k) if st == "ok" else None
+    if st != "ok":
+        rec["oracle"].append("mesh-fftn-rejected")
+    rec.update(obs=dict(final=cur, kmesh=obs, history=hist),
+               coq=f"CMeshF {mesh_in_coq(cur)} {g.b(rfft)} {mesh_obs_coq(obs)}",
+               key=f'state/{nd}/{"-".join(hist)}/{rfft}/{isreal}', size=sum(n) + nv + len(hist))
     return rec
 
 
